@@ -1,13 +1,14 @@
 #!/usr/bin/env python3
-"""usage: tools/import_round5.py <ID>...  - confirm the two round-5 changes of /tmp/r5/out/<ID> (tools/confirm_seeded2.sh:
+"""usage: tools/import_round.py <round> <ID>...  - confirm the two changes of /tmp/r<round>/out/<ID> (tools/confirm_seeded2.sh:
 applies to a scratch worktree of /repo HEAD, pinned suite summary unchanged, demo passes without / fails with the change)
-and import the confirmed ones as seeded/<ID>_9 and seeded/<ID>_10 (patch.diff, demo.py, meta.json)."""
+and import the confirmed ones as seeded/<ID>_<2*round-1> and seeded/<ID>_<2*round> (patch.diff, demo.py, meta.json)."""
 import json, os, shutil, subprocess, sys
 HERE = os.path.dirname(os.path.dirname(os.path.abspath(__file__)))
 BASE = subprocess.check_output(["git", "-C", "/repo", "rev-parse", "--short", "HEAD"], text=True).strip()
 OK_TESTS = "193 passed"
-for pid in sys.argv[1:]:
-    d = f"/tmp/r5/out/{pid}"
+ROUND = int(sys.argv[1])
+for pid in sys.argv[2:]:
+    d = f"/tmp/r{ROUND}/out/{pid}"
     summ = json.load(open(f"{d}/summary.json"))
     for k in ("1", "2"):
         out = subprocess.run([f"{HERE}/tools/confirm_seeded2.sh", d, k, BASE], capture_output=True, text=True).stdout.strip().splitlines()
@@ -16,14 +17,14 @@ for pid in sys.argv[1:]:
         print(pid, k, "CONFIRMED" if ok else "REJECTED", r)
         if not ok:
             continue
-        sid = f"{pid}_{8 + int(k)}"
+        sid = f"{pid}_{2 * ROUND - 2 + int(k)}"
         dst = f"{HERE}/seeded/{sid}"
         os.makedirs(dst, exist_ok=True)
         shutil.copy(f"{d}/patch{k}.diff", f"{dst}/patch.diff")
         shutil.copy(f"{d}/demo{k}.py", f"{dst}/demo.py")
         s = summ[k]
-        meta = {"property": pid, "round": 5, "breaks": s["breaks"], "needs_to_manifest": s["needs_to_manifest"], "files": s.get("files", []),
-                "origin": "independent sub-agent (round 5) given only the property text, one-line summaries of the 8 earlier changes of this property as 'already taken', and a scratch worktree of /repo at " + BASE,
+        meta = {"property": pid, "round": ROUND, "breaks": s["breaks"], "needs_to_manifest": s["needs_to_manifest"], "files": s.get("files", []),
+                "origin": f"independent sub-agent (round {ROUND}) given only the property text, one-line summaries of the earlier changes of this property as 'already taken', and a scratch worktree of /repo at " + BASE,
                 "confirmed": {"base_commit": BASE, "ran": "tools/confirm_seeded2.sh", "tests_summary_with_change": r["tests"],
                               "demo_rc_without_change": r["demo_rc_clean"], "demo_rc_with_change": r["demo_rc_mutant"]},
                 "detected_by": None}
